@@ -4,10 +4,10 @@
  *   <fn>_b  kind=B  bounded stand-in (len <= 4, all element values symbolic): the full postcondition against a plain
  *                   reference loop; replayable natively, guards against a wrong contract.                                   */
 void _ZN3etl14assert_handlerINS_10assert_msgEEEvRKT_(struct etl_assert_msg *m) { __CPROVER_assert(0, "C05: assert_handler fired on valid input"); __CPROVER_assume(0); }
-#define GH() do { vf_n = nondet_ulong(); vf_m = nondet_ulong(); vf_k = nondet_ulong(); vf_j = nondet_ulong(); vf_p = nondet_ulong(); vf_q = nondet_ulong(); vf_ov = nondet_ulong(); } while (0)
+#define GH() do { vf_n = nondet_ulong(); vf_m = nondet_ulong(); vf_k = nondet_ulong(); vf_j = nondet_ulong(); vf_p = nondet_ulong(); vf_q = nondet_ulong(); vf_ov = nondet_ulong(); vf_sel = 0; } while (0)
 #define P3(x) ((x) % 3 == 0)
-#define OP1(x) ((int)((unsigned)(x) * 2u + 1u))
-#define OP2(x, y) ((int)((unsigned)(x) * 3u + (unsigned)(y)))
+#define OP1(x) (((x) & 0x3fffffff) * 2 + 1)
+#define OP2(x, y) (((x) & 0xfffff) * 3 + ((y) & 0xfffff))
 #define MAXB 4
 /* bounded stand-ins: symbolic length n <= MAXB, exact-size buffer a (copy of a_in) */
 #define IN1(a, n) VF_INPUT(unsigned long, n); VF_BUF(int, a, n, MAXB)
@@ -83,3 +83,334 @@ void h_copy_b(void) { IN1(a, n); VF_BUF(int, d, n, MAXB); int *r = copy_int(a, a
   VF_ASSERT(r == d + n, "C06: copy returns d_first + (last - first)");
   for (unsigned long i = 0; i < n; ++i) VF_ASSERT(d[i] == a_in[i], "C06: copy: d[i] == a[i]");
   UNCHANGED(a, n); VF_REACH(); }
+
+/*@COMMON@*/
+/* contract groups of the writing algorithms: iterators are vf::idx<int> {base, i} (see driver.cpp) */
+#define XI struct vf_idx_int
+#define XU struct vf_idx_unsignedint
+
+#define IN1U(a, n) VF_INPUT(unsigned long, n); VF_BUF(unsigned, a, n, MAXB)
+
+/*@GROUP name=move props=C06,C02 kind=U mode=contract enforce=etl_move loops=1 standin=move_b@*/
+void h_move(void) { XI f, l, d; GH(); etl_move(f, l, d); VF_REACH(); }
+/*@GROUP name=move_b props=C06,C02 kind=B bound=len<=4 unwind=6@*/
+void h_move_b(void) { IN1(a, n); VF_BUF(int, d, n, MAXB); int *r = move_int(a, a + n, d);
+  VF_ASSERT(r == d + n, "C06: move returns d_first + (last - first)");
+  for (unsigned long i = 0; i < n; ++i) VF_ASSERT(d[i] == a_in[i], "C06: move: d[i] == a[i]");
+  VF_REACH(); }
+
+/*@GROUP name=copy_backward props=C06,C02 kind=U mode=contract enforce=etl_copy_backward loops=1 standin=copy_backward_b@*/
+void h_copy_backward(void) { XI f, l, d; GH(); etl_copy_backward(f, l, d); VF_REACH(); }
+/*@GROUP name=copy_backward_b props=C06,C02 kind=B bound=len<=4 unwind=6@*/
+void h_copy_backward_b(void) { IN1(a, n); VF_INPUT(unsigned long, m); VF_ASSUME(m <= n);   /* overlapping: a[0..m) -> a[n-m..n) */
+  int *r = copy_backward_int(a, a + m, a + n);
+  VF_ASSERT(r == a + (n - m), "C06: copy_backward returns d_last - (last - first)");
+  for (unsigned long i = 0; i < n; ++i) VF_ASSERT(a[i] == (i >= n - m ? a_in[i - (n - m)] : a_in[i]), "C06: copy_backward: elements");
+  VF_REACH(); }
+
+/*@GROUP name=move_backward props=C06,C02 kind=U mode=contract enforce=etl_move_backward loops=1 standin=move_backward_b@*/
+void h_move_backward(void) { XI f, l, d; GH(); etl_move_backward(f, l, d); VF_REACH(); }
+/*@GROUP name=move_backward_b props=C06,C02 kind=B bound=len<=4 unwind=6@*/
+void h_move_backward_b(void) { IN1(a, n); VF_INPUT(unsigned long, m); VF_ASSUME(m <= n);
+  int *r = move_backward_int(a, a + m, a + n);
+  VF_ASSERT(r == a + (n - m), "C06: move_backward returns d_last - (last - first)");
+  for (unsigned long i = 0; i < n; ++i) VF_ASSERT(a[i] == (i >= n - m ? a_in[i - (n - m)] : a_in[i]), "C06: move_backward: elements");
+  VF_REACH(); }
+
+/*@GROUP name=copy_n props=C06,C02 kind=U mode=contract enforce=etl_copy_n loops=1 standin=copy_n_b@*/
+void h_copy_n(void) { XI f, d; long c; GH(); etl_copy_n(f, c, d); VF_REACH(); }     /* elements + frame (vf_sel == 0) */
+/*@GROUP name=copy_n_ret props=C06,C02 kind=U mode=contract enforce=etl_copy_n loops=1 standin=copy_n_b@*/
+void h_copy_n_ret(void) { XI f, d; long c; GH(); vf_sel = 1; VF_KNOWN(C06_copy_n_return, c > 0); etl_copy_n(f, c, d); VF_REACH(); }   /* + returned iterator */
+/*@GROUP name=copy_n_b props=C06,C02 kind=B bound=len<=4 unwind=6@*/
+void h_copy_n_b(void) { IN1(a, n); VF_BUF(int, d, n, MAXB); VF_INPUT(long, c); VF_ASSUME(c <= 0 ? n == 0 : (unsigned long)c == n);
+  int *r = copy_n_int(a, c, d);
+  for (unsigned long i = 0; i < n; ++i) VF_ASSERT(d[i] == a_in[i], "C06: copy_n: d[i] == a[i]");
+  UNCHANGED(a, n);
+  VF_KNOWN(C06_copy_n_return, c > 0);
+  VF_ASSERT(r == d + n, "C06: copy_n returns result + n"); VF_REACH(); }
+
+/*@GROUP name=fill props=C06,C02 kind=U mode=contract enforce=etl_fill loops=1 standin=fill_b@*/
+void h_fill(void) { XI f, l; int *v; GH(); etl_fill(f, l, v); VF_REACH(); }
+/*@GROUP name=fill_b props=C06,C02 kind=B bound=len<=4 unwind=6@*/
+void h_fill_b(void) { IN1(a, n); VF_INPUT(int, v); fill_int(a, a + n, &v);
+  for (unsigned long i = 0; i < n; ++i) VF_ASSERT(a[i] == v, "C06: fill assigns value to every element"); VF_REACH(); }
+
+/*@GROUP name=fill_n props=C06,C02 kind=U mode=contract enforce=etl_fill_n loops=1 standin=fill_n_b@*/
+void h_fill_n(void) { XI f; long c; int *v; GH(); etl_fill_n(f, c, v); VF_REACH(); }
+/*@GROUP name=fill_n_b props=C06,C02 kind=B bound=len<=4 unwind=6@*/
+void h_fill_n_b(void) { IN1(a, n); VF_INPUT(int, v); VF_INPUT(long, c); VF_ASSUME(c <= (long)n);
+  int *r = fill_n_int(a, c, &v); unsigned long w = c > 0 ? (unsigned long)c : 0;
+  VF_ASSERT(r == a + w, "C06: fill_n returns first + n (first if n <= 0)");
+  for (unsigned long i = 0; i < n; ++i) VF_ASSERT(a[i] == (i < w ? v : a_in[i]), "C06: fill_n assigns exactly the first n elements"); VF_REACH(); }
+
+/*@GROUP name=generate props=C06,C02 kind=U mode=contract enforce=etl_generate loops=1 standin=generate_b@*/
+void h_generate(void) { XU f, l; struct vf_gen1 g; GH(); etl_generate(f, l, g); VF_REACH(); }
+/*@GROUP name=generate_b props=C06,C02 kind=B bound=len<=4 unwind=6@*/
+void h_generate_b(void) { IN1U(a, n); VF_INPUT(unsigned, s); generate_u(a, a + n, s);
+  for (unsigned long i = 0; i < n; ++i) VF_ASSERT(a[i] == s + (unsigned)i, "C06: generate assigns successive results of g in order"); VF_REACH(); }
+
+/*@GROUP name=generate_n props=C06,C02 kind=U mode=contract enforce=etl_generate_n loops=1 standin=generate_n_b@*/
+void h_generate_n(void) { XU f; long c; struct vf_gen1 g; GH(); etl_generate_n(f, c, g); VF_REACH(); }
+/*@GROUP name=generate_n_b props=C06,C02 kind=B bound=len<=4 unwind=6@*/
+void h_generate_n_b(void) { IN1U(a, n); VF_INPUT(unsigned, s); VF_INPUT(long, c); VF_ASSUME(c <= (long)n);
+  unsigned *r = generate_n_u(a, c, s); unsigned long w = c > 0 ? (unsigned long)c : 0;
+  VF_ASSERT(r == a + w, "C06: generate_n returns first + n (first if n <= 0)");
+  for (unsigned long i = 0; i < n; ++i) VF_ASSERT(a[i] == (i < w ? s + (unsigned)i : a_in[i]), "C06: generate_n assigns exactly the first n elements"); VF_REACH(); }
+
+/*@GROUP name=transform1 props=C06,C02 kind=U mode=contract enforce=etl_transform1 loops=1 standin=transform1_b@*/
+void h_transform1(void) { XI f, l, d; struct vf_op1 o; GH(); etl_transform1(f, l, d, o); VF_REACH(); }
+/*@GROUP name=transform1_b props=C06,C02 kind=B bound=len<=4 unwind=6@*/
+void h_transform1_b(void) { IN1(a, n); VF_BUF(int, d, n, MAXB); VF_INPUT_BOOL(inplace); int *o = inplace ? a : d;
+  int *r = transform1(a, a + n, o);
+  VF_ASSERT(r == o + n, "C06: transform returns result + (last - first)");
+  for (unsigned long i = 0; i < n; ++i) VF_ASSERT(o[i] == OP1(a_in[i]), "C06: transform: result[i] == op(a[i])"); VF_REACH(); }
+
+/*@GROUP name=transform2 props=C06,C02 kind=U mode=contract enforce=etl_transform2 loops=1 standin=transform2_b@*/
+void h_transform2(void) { XI f, l, g, d; struct vf_op2 o; GH(); etl_transform2(f, l, g, d, o); VF_REACH(); }
+/*@GROUP name=transform2_b props=C06,C02 kind=B bound=len<=4 unwind=6@*/
+void h_transform2_b(void) { IN1(a, n); VF_BUF(int, b, n, MAXB); VF_BUF(int, d, n, MAXB); VF_INPUT(unsigned char, w); int *o = w == 1 ? a : w == 2 ? b : d;
+  int *r = transform2(a, a + n, b, o);
+  VF_ASSERT(r == o + n, "C06: transform returns result + (last1 - first1)");
+  for (unsigned long i = 0; i < n; ++i) VF_ASSERT(o[i] == OP2(a_in[i], b_in[i]), "C06: transform: result[i] == op(a[i], b[i])"); VF_REACH(); }
+
+/*@GROUP name=replace_if props=C06,C02 kind=U mode=contract enforce=etl_replace_if loops=1 standin=replace_if_b@*/
+void h_replace_if(void) { XI f, l; struct vf_pred3 p; int *v; GH(); etl_replace_if(f, l, p, v); VF_REACH(); }
+/*@GROUP name=replace_if_b props=C06,C02 kind=B bound=len<=4 unwind=6@*/
+void h_replace_if_b(void) { IN1(a, n); VF_INPUT(int, v); replace_if_p3(a, a + n, &v);
+  for (unsigned long i = 0; i < n; ++i) VF_ASSERT(a[i] == (P3(a_in[i]) ? v : a_in[i]), "C06: replace_if"); VF_REACH(); }
+
+/*@GROUP name=replace props=C06,C02 kind=U mode=contract enforce=etl_replace loops=1 standin=replace_b@*/
+void h_replace(void) { XI f, l; int *o, *v; GH(); etl_replace(f, l, o, v); VF_REACH(); }
+/*@GROUP name=replace_b props=C06,C02 kind=B bound=len<=4 unwind=6@*/
+void h_replace_b(void) { IN1(a, n); VF_INPUT(int, o); VF_INPUT(int, v); replace_int(a, a + n, &o, &v);
+  for (unsigned long i = 0; i < n; ++i) VF_ASSERT(a[i] == (a_in[i] == o ? v : a_in[i]), "C06: replace"); VF_REACH(); }
+
+/*@GROUP name=swap_ranges props=C06,C02 kind=U mode=contract enforce=etl_swap_ranges loops=1 standin=swap_ranges_b@*/
+void h_swap_ranges(void) { XI f, l, g; GH(); etl_swap_ranges(f, l, g); VF_REACH(); }
+/*@GROUP name=swap_ranges_b props=C06,C02 kind=B bound=len<=4 unwind=6@*/
+void h_swap_ranges_b(void) { IN1(a, n); VF_BUF(int, b, n, MAXB); int *r = swap_ranges_int(a, a + n, b);
+  VF_ASSERT(r == b + n, "C06: swap_ranges returns first2 + (last1 - first1)");
+  for (unsigned long i = 0; i < n; ++i) VF_ASSERT(a[i] == b_in[i] && b[i] == a_in[i], "C06: swap_ranges exchanges the elements"); VF_REACH(); }
+
+/*@GROUP name=reverse props=C06,C02 kind=U mode=contract enforce=etl_reverse loops=1 standin=reverse_b@*/
+void h_reverse(void) { XI f, l; GH(); etl_reverse(f, l); VF_REACH(); }
+/*@GROUP name=reverse_b props=C06,C02 kind=B bound=len<=4 unwind=6@*/
+void h_reverse_b(void) { IN1(a, n); reverse_int(a, a + n);
+  for (unsigned long i = 0; i < n; ++i) VF_ASSERT(a[i] == a_in[n - 1 - i], "C06: reverse"); VF_REACH(); }
+
+/*@GROUP name=reverse_copy props=C06,C02 kind=U mode=contract enforce=etl_reverse_copy loops=1 standin=reverse_copy_b@*/
+void h_reverse_copy(void) { XI f, l, d; GH(); etl_reverse_copy(f, l, d); VF_REACH(); }
+/*@GROUP name=reverse_copy_b props=C06,C02 kind=B bound=len<=4 unwind=6@*/
+void h_reverse_copy_b(void) { IN1(a, n); VF_BUF(int, d, n, MAXB); int *r = reverse_copy_int(a, a + n, d);
+  VF_ASSERT(r == d + n, "C06: reverse_copy returns result + (last - first)");
+  for (unsigned long i = 0; i < n; ++i) VF_ASSERT(d[i] == a_in[n - 1 - i], "C06: reverse_copy"); UNCHANGED(a, n); VF_REACH(); }
+
+/*@GROUP name=iota props=C06,C02 kind=U mode=contract enforce=etl_iota loops=1 standin=iota_b@*/
+void h_iota(void) { XU f, l; unsigned v; GH(); etl_iota(f, l, v); VF_REACH(); }
+/*@GROUP name=iota_b props=C06,C02 kind=B bound=len<=4 unwind=6@*/
+void h_iota_b(void) { IN1U(a, n); VF_INPUT(unsigned, v); iota_u(a, a + n, v);
+  for (unsigned long i = 0; i < n; ++i) VF_ASSERT(a[i] == v + (unsigned)i, "C06: iota"); VF_REACH(); }
+
+/*@GROUP name=copy_if props=C06,C02 kind=U mode=contract enforce=etl_copy_if loops=1 standin=copy_if_b@*/
+void h_copy_if(void) { XI f, l, d; struct vf_pred3 p; GH(); etl_copy_if(f, l, d, p); VF_REACH(); }
+/*@GROUP name=copy_if_b props=C06,C02 kind=B bound=len<=4 unwind=6@*/
+void h_copy_if_b(void) { IN1(a, n); VF_BUF(int, d, n, MAXB); int *r = copy_if_p3(a, a + n, d);
+  int e[MAXB + 1]; unsigned long w = 0; for (unsigned long i = 0; i < n; ++i) if (P3(a_in[i])) e[w++] = a_in[i];
+  VF_ASSERT(r == d + w, "C06: copy_if returns the end of the resulting range");
+  for (unsigned long i = 0; i < n; ++i) VF_ASSERT(d[i] == (i < w ? e[i] : d_in[i]), "C06: copy_if copies exactly the matching elements, in order");
+  UNCHANGED(a, n); VF_REACH(); }
+
+/*@GROUP name=find_if_x props=C06,C02 kind=U mode=contract enforce=etl_find_if_x loops=1 standin=find_if_b@*/
+void h_find_if_x(void) { XI f, l; struct vf_pred3 p; GH(); etl_find_if_x(f, l, p); VF_REACH(); }
+
+/*@GROUP name=remove_if props=C06,C02 kind=U mode=contract enforce=etl_remove_if loops=1 standin=remove_if_b@*/
+void h_remove_if(void) { XI f, l; struct vf_pred3 p; GH(); etl_remove_if(f, l, p); VF_REACH(); }
+/*@GROUP name=remove_if_b props=C06,C02 kind=B bound=len<=4 unwind=6@*/
+void h_remove_if_b(void) { IN1(a, n); int *r = remove_if_p3(a, a + n);
+  int e[MAXB + 1]; unsigned long w = 0; for (unsigned long i = 0; i < n; ++i) if (!P3(a_in[i])) e[w++] = a_in[i];
+  VF_ASSERT(r == a + w, "C06: remove_if returns the end of the resulting range");
+  for (unsigned long i = 0; i < w; ++i) VF_ASSERT(a[i] == e[i], "C06: remove_if keeps exactly the non-matching elements, in order"); VF_REACH(); }
+
+/*@GROUP name=remove props=C06,C02 kind=U mode=contract enforce=etl_remove loops=1 standin=remove_b@*/
+void h_remove(void) { XI f, l; int *v; GH(); etl_remove(f, l, v); VF_REACH(); }
+/*@GROUP name=remove_b props=C06,C02 kind=B bound=len<=4 unwind=6@*/
+void h_remove_b(void) { IN1(a, n); VF_INPUT(int, v); int *r = remove_int(a, a + n, &v);
+  int e[MAXB + 1]; unsigned long w = 0; for (unsigned long i = 0; i < n; ++i) if (a_in[i] != v) e[w++] = a_in[i];
+  VF_ASSERT(r == a + w, "C06: remove returns the end of the resulting range");
+  for (unsigned long i = 0; i < w; ++i) VF_ASSERT(a[i] == e[i], "C06: remove keeps exactly the elements != value, in order"); VF_REACH(); }
+
+/*@GROUP name=remove_copy_if props=C06,C02 kind=U mode=contract enforce=etl_remove_copy_if loops=1 standin=remove_copy_if_b@*/
+void h_remove_copy_if(void) { XI f, l, d; struct vf_pred3 p; GH(); VF_KNOWN(C06_remove_copy_if_holes, 1); etl_remove_copy_if(f, l, d, p); VF_REACH(); }
+/*@GROUP name=remove_copy_if_b props=C06,C02 kind=B bound=len<=4 unwind=6@*/
+void h_remove_copy_if_b(void) { IN1(a, n); VF_BUF(int, d, n, MAXB);
+  int e[MAXB + 1]; unsigned long w = 0; for (unsigned long i = 0; i < n; ++i) if (!P3(a_in[i])) e[w++] = a_in[i];
+  VF_KNOWN(C06_remove_copy_if_holes, w != n);               /* some element satisfies the predicate */
+  int *r = remove_copy_if_p3(a, a + n, d);
+  VF_ASSERT(r == d + w, "C06: remove_copy_if returns the end of the resulting range");
+  for (unsigned long i = 0; i < n; ++i) VF_ASSERT(d[i] == (i < w ? e[i] : d_in[i]), "C06: remove_copy_if copies exactly the non-matching elements to consecutive positions");
+  UNCHANGED(a, n); VF_REACH(); }
+
+/*@GROUP name=remove_copy props=C06,C02 kind=U mode=contract enforce=etl_remove_copy loops=1 standin=remove_copy_b@*/
+void h_remove_copy(void) { XI f, l, d; int *v; GH(); VF_KNOWN(C06_remove_copy_if_holes, 1); etl_remove_copy(f, l, d, v); VF_REACH(); }
+/*@GROUP name=remove_copy_b props=C06,C02 kind=B bound=len<=4 unwind=6@*/
+void h_remove_copy_b(void) { IN1(a, n); VF_BUF(int, d, n, MAXB); VF_INPUT(int, v);
+  int e[MAXB + 1]; unsigned long w = 0; for (unsigned long i = 0; i < n; ++i) if (a_in[i] != v) e[w++] = a_in[i];
+  VF_KNOWN(C06_remove_copy_if_holes, w != n);               /* some element equals value */
+  int *r = remove_copy_int(a, a + n, d, &v);
+  VF_ASSERT(r == d + w, "C06: remove_copy returns the end of the resulting range");
+  for (unsigned long i = 0; i < n; ++i) VF_ASSERT(d[i] == (i < w ? e[i] : d_in[i]), "C06: remove_copy copies exactly the elements != value to consecutive positions");
+  UNCHANGED(a, n); VF_REACH(); }
+
+/*@GROUP name=unique props=C06,C02 kind=U mode=contract enforce=etl_unique loops=1 standin=unique_b@*/
+void h_unique(void) { XI f, l; GH(); etl_unique(f, l); VF_REACH(); }
+/*@GROUP name=unique_b props=C06,C02 kind=B bound=len<=4 unwind=6@*/
+void h_unique_b(void) { IN1(a, n); int *r = unique_int(a, a + n);
+  int e[MAXB + 1]; unsigned long w = 0; for (unsigned long i = 0; i < n; ++i) if (i == 0 || a_in[i] != a_in[i - 1]) e[w++] = a_in[i];
+  VF_ASSERT(r == a + w, "C06: unique returns the end of the resulting range");
+  for (unsigned long i = 0; i < w; ++i) VF_ASSERT(a[i] == e[i], "C06: unique keeps the first element of every group of equal elements"); VF_REACH(); }
+
+/*@GROUP name=unique_copy props=C06,C02 kind=U mode=contract enforce=etl_unique_copy loops=1 standin=unique_copy_b@*/
+void h_unique_copy(void) { XI f, l, d; GH(); etl_unique_copy(f, l, d); VF_REACH(); }
+/*@GROUP name=unique_copy_b props=C06,C02 kind=B bound=len<=4 unwind=6@*/
+void h_unique_copy_b(void) { IN1(a, n); VF_BUF(int, d, n, MAXB); int *r = unique_copy_int(a, a + n, d);
+  int e[MAXB + 1]; unsigned long w = 0; for (unsigned long i = 0; i < n; ++i) if (i == 0 || a_in[i] != a_in[i - 1]) e[w++] = a_in[i];
+  VF_ASSERT(r == d + w, "C06: unique_copy returns the end of the resulting range");
+  for (unsigned long i = 0; i < n; ++i) VF_ASSERT(d[i] == (i < w ? e[i] : d_in[i]), "C06: unique_copy copies the first element of every group of equal elements");
+  UNCHANGED(a, n); VF_REACH(); }
+
+/*@GROUP name=partial_sum props=C06,C02 kind=U mode=contract enforce=etl_partial_sum loops=1 standin=partial_sum_b@*/
+void h_partial_sum(void) { XU f, l, d; GH(); etl_partial_sum(f, l, d); VF_REACH(); }
+/*@GROUP name=partial_sum_b props=C06,C02 kind=B bound=len<=4 unwind=6@*/
+void h_partial_sum_b(void) { IN1U(a, n); VF_BUF(unsigned, d, n, MAXB); VF_INPUT_BOOL(inplace); unsigned *o = inplace ? a : d;
+  unsigned *r = partial_sum_u(a, a + n, o); unsigned s = 0;
+  VF_ASSERT(r == o + n, "C06: partial_sum returns result + (last - first)");
+  for (unsigned long i = 0; i < n; ++i) { s += a_in[i]; VF_ASSERT(o[i] == s, "C06: partial_sum: result[i] == a[0] + ... + a[i]"); } VF_REACH(); }
+
+/*@GROUP name=adjacent_difference props=C06,C02 kind=U mode=contract enforce=etl_adjacent_difference loops=1 standin=adjacent_difference_b@*/
+void h_adjacent_difference(void) { XU f, l, d; GH(); etl_adjacent_difference(f, l, d); VF_REACH(); }
+/*@GROUP name=adjacent_difference_b props=C06,C02 kind=B bound=len<=4 unwind=6@*/
+void h_adjacent_difference_b(void) { IN1U(a, n); VF_BUF(unsigned, d, n, MAXB); VF_INPUT_BOOL(inplace); unsigned *o = inplace ? a : d;
+  unsigned *r = adjacent_difference_u(a, a + n, o);
+  VF_ASSERT(r == o + n, "C06: adjacent_difference returns result + (last - first)");
+  for (unsigned long i = 0; i < n; ++i) VF_ASSERT(o[i] == (i == 0 ? a_in[0] : a_in[i] - a_in[i - 1]), "C06: adjacent_difference: result[i] == a[i] - a[i-1]"); VF_REACH(); }
+
+/*@COMMON@*/
+#define IN2(a, n, b, m) IN1(a, n); VF_INPUT(unsigned long, m); VF_BUF(int, b, m, MAXB)
+
+/*@GROUP name=mismatch3 props=C06,C02 kind=U mode=contract enforce=etl_mismatch3 loops=1 standin=mismatch3_b@*/
+void h_mismatch3(void) { int *f, *l, *g; GH(); etl_mismatch3(f, l, g); VF_REACH(); }
+/*@GROUP name=mismatch3_b props=C06,C02 kind=B bound=len<=4 unwind=6@*/
+void h_mismatch3_b(void) { IN1(a, n); VF_BUF(int, b, n, MAXB); struct vf_pii r; mismatch3(a, a + n, b, &r);
+  unsigned long i = 0; while (i < n && a_in[i] == b_in[i]) ++i;
+  VF_ASSERT(r.a == a + i && r.b == b + i, "C06: mismatch returns the first position where the ranges differ"); UNCHANGED(a, n); UNCHANGED(b, n); VF_REACH(); }
+
+/*@GROUP name=mismatch4 props=C06,C02 kind=U mode=contract enforce=etl_mismatch4 loops=1 standin=mismatch4_b@*/
+void h_mismatch4(void) { int *f, *l, *g, *h; GH(); etl_mismatch4(f, l, g, h); VF_REACH(); }
+/*@GROUP name=mismatch4_b props=C06,C02 kind=B bound=len<=4 unwind=6@*/
+void h_mismatch4_b(void) { IN2(a, n, b, m); struct vf_pii r; mismatch4(a, a + n, b, b + m, &r);
+  unsigned long i = 0; while (i < n && i < m && a_in[i] == b_in[i]) ++i;
+  VF_ASSERT(r.a == a + i && r.b == b + i, "C06: mismatch (two ends) returns the first difference or the end of the shorter range"); VF_REACH(); }
+
+/*@GROUP name=equal3 props=C06,C02 kind=U mode=contract enforce=etl_equal3 loops=1 standin=equal3_b@*/
+void h_equal3(void) { int *f, *l, *g; GH(); etl_equal3(f, l, g); VF_REACH(); }
+/*@GROUP name=equal3_b props=C06,C02 kind=B bound=len<=4 unwind=6@*/
+void h_equal3_b(void) { IN1(a, n); VF_BUF(int, b, n, MAXB); _Bool r = equal3(a, a + n, b);
+  _Bool e = 1; for (unsigned long i = 0; i < n; ++i) if (a_in[i] != b_in[i]) e = 0;
+  VF_ASSERT(r == e, "C06: equal"); VF_REACH(); }
+
+/*@GROUP name=equal4 props=C06,C02 kind=U mode=contract enforce=etl_equal4 loops=1 standin=equal4_b@*/
+void h_equal4(void) { int *f, *l, *g, *h; GH(); etl_equal4(f, l, g, h); VF_REACH(); }
+/*@GROUP name=equal4_b props=C06,C02 kind=B bound=len<=4 unwind=6@*/
+void h_equal4_b(void) { IN2(a, n, b, m); _Bool r = equal4(a, a + n, b, b + m);
+  _Bool e = n == m; for (unsigned long i = 0; i < n && i < m; ++i) if (a_in[i] != b_in[i]) e = 0;
+  VF_ASSERT(r == e, "C06: equal (two ends): same length and equal elements"); VF_REACH(); }
+
+/*@GROUP name=adjacent_find props=C06,C02 kind=U mode=contract enforce=etl_adjacent_find loops=1 standin=adjacent_find_b@*/
+void h_adjacent_find(void) { int *f, *l; GH(); etl_adjacent_find(f, l); VF_REACH(); }
+/*@GROUP name=adjacent_find_b props=C06,C02 kind=B bound=len<=4 unwind=6@*/
+void h_adjacent_find_b(void) { IN1(a, n); int *r = adjacent_find_int(a, a + n);
+  unsigned long i = 0; while (i + 1 < n && a_in[i] != a_in[i + 1]) ++i;
+  VF_ASSERT(r == (i + 1 < n ? a + i : a + n), "C06: adjacent_find returns the first i with a[i] == a[i+1], or last"); UNCHANGED(a, n); VF_REACH(); }
+
+/*@GROUP name=lexicographical_compare props=C06,C02 kind=U mode=contract enforce=etl_lexcmp loops=1 standin=lexicographical_compare_b@*/
+void h_lexicographical_compare(void) { int *f, *l, *g, *h; GH(); etl_lexcmp(f, l, g, h); VF_REACH(); }
+/*@GROUP name=lexicographical_compare_b props=C06,C02 kind=B bound=len<=4 unwind=6@*/
+void h_lexicographical_compare_b(void) { IN2(a, n, b, m); _Bool r = lexcmp(a, a + n, b, b + m);
+  unsigned long i = 0; while (i < n && i < m && a_in[i] == b_in[i]) ++i;
+  _Bool e = (i < n && i < m) ? a_in[i] < b_in[i] : (i == n && i < m);
+  VF_ASSERT(r == e, "C06: lexicographical_compare"); VF_REACH(); }
+
+/*@GROUP name=min_element props=C06,C02 kind=U mode=contract enforce=etl_min_element loops=1 standin=min_element_b@*/
+void h_min_element(void) { int *f, *l; GH(); etl_min_element(f, l); VF_REACH(); }
+/*@GROUP name=min_element_b props=C06,C02 kind=B bound=len<=4 unwind=6@*/
+void h_min_element_b(void) { IN1(a, n); int *r = min_element_int(a, a + n);
+  unsigned long e = 0; for (unsigned long i = 1; i < n; ++i) if (a_in[i] < a_in[e]) e = i;
+  VF_ASSERT(r == (n ? a + e : a + n), "C06: min_element returns the first smallest element, last if empty"); UNCHANGED(a, n); VF_REACH(); }
+
+/*@GROUP name=max_element props=C06,C02 kind=U mode=contract enforce=etl_max_element loops=1 standin=max_element_b@*/
+void h_max_element(void) { int *f, *l; GH(); etl_max_element(f, l); VF_REACH(); }
+/*@GROUP name=max_element_b props=C06,C02 kind=B bound=len<=4 unwind=6@*/
+void h_max_element_b(void) { IN1(a, n); int *r = max_element_int(a, a + n);
+  unsigned long e = 0; for (unsigned long i = 1; i < n; ++i) if (a_in[e] < a_in[i]) e = i;
+  VF_ASSERT(r == (n ? a + e : a + n), "C06: max_element returns the first largest element, last if empty"); UNCHANGED(a, n); VF_REACH(); }
+
+/*@GROUP name=max_element_gt props=C06,C02 kind=U mode=contract enforce=etl_max_element_gt loops=1 standin=max_element_gt_b@*/
+void h_max_element_gt(void) { int *f, *l; struct etl_greater c; GH(); etl_max_element_gt(f, l, c); VF_REACH(); }
+/*@GROUP name=max_element_gt_b props=C06,C02 kind=B bound=len<=4 unwind=6@*/
+void h_max_element_gt_b(void) { IN1(a, n); int *r = max_element_gt(a, a + n);
+  unsigned long e = 0; for (unsigned long i = 1; i < n; ++i) if (a_in[e] > a_in[i]) e = i;
+  VF_ASSERT(r == (n ? a + e : a + n), "C06: max_element(greater) returns the first element that is largest w.r.t. greater"); VF_REACH(); }
+
+/*@GROUP name=is_sorted_until props=C06,C02 kind=U mode=contract enforce=etl_is_sorted_until loops=1 standin=is_sorted_until_b@*/
+void h_is_sorted_until(void) { int *f, *l; GH(); etl_is_sorted_until(f, l); VF_REACH(); }
+/*@GROUP name=is_sorted_until_b props=C06,C02 kind=B bound=len<=4 unwind=6@*/
+void h_is_sorted_until_b(void) { IN1(a, n); int *r = is_sorted_until_int(a, a + n);
+  unsigned long i = n ? 1 : 0; while (i < n && !(a_in[i] < a_in[i - 1])) ++i;
+  VF_ASSERT(r == a + i, "C06: is_sorted_until returns the end of the longest sorted prefix"); UNCHANGED(a, n); VF_REACH(); }
+
+/*@GROUP name=is_sorted_until_gt props=C06,C02 kind=U mode=contract enforce=etl_is_sorted_until_gt loops=1 standin=is_sorted_until_gt_b@*/
+void h_is_sorted_until_gt(void) { int *f, *l; struct etl_greater c; GH(); etl_is_sorted_until_gt(f, l, c); VF_REACH(); }
+/*@GROUP name=is_sorted_until_gt_b props=C06,C02 kind=B bound=len<=4 unwind=6@*/
+void h_is_sorted_until_gt_b(void) { IN1(a, n); int *r = is_sorted_until_gt(a, a + n);
+  unsigned long i = n ? 1 : 0; while (i < n && !(a_in[i] > a_in[i - 1])) ++i;
+  VF_ASSERT(r == a + i, "C06: is_sorted_until(greater)"); VF_REACH(); }
+
+/*@GROUP name=is_sorted props=C06,C02 kind=U mode=contract enforce=etl_is_sorted replace=etl_is_sorted_until standin=is_sorted_b@*/
+void h_is_sorted(void) { int *f, *l; GH(); etl_is_sorted(f, l); VF_REACH(); }
+/*@GROUP name=is_sorted_b props=C06,C02 kind=B bound=len<=4 unwind=6@*/
+void h_is_sorted_b(void) { IN1(a, n); _Bool r = is_sorted_int(a, a + n);
+  _Bool e = 1; for (unsigned long i = 1; i < n; ++i) if (a_in[i] < a_in[i - 1]) e = 0;
+  VF_ASSERT(r == e, "C06: is_sorted"); VF_REACH(); }
+
+/*@GROUP name=is_partitioned props=C06,C02 kind=U mode=contract enforce=etl_is_partitioned loops=1 standin=is_partitioned_b@*/
+void h_is_partitioned(void) { int *f, *l; struct vf_pred3 p; GH(); etl_is_partitioned(f, l, p); VF_REACH(); }
+/*@GROUP name=is_partitioned_b props=C06,C02 kind=B bound=len<=4 unwind=6@*/
+void h_is_partitioned_b(void) { IN1(a, n); _Bool r = is_partitioned_p3(a, a + n);
+  _Bool e = 1; for (unsigned long i = 1; i < n; ++i) if (P3(a_in[i]) && !P3(a_in[i - 1])) e = 0;
+  VF_ASSERT(r == e, "C06: is_partitioned"); VF_REACH(); }
+
+/*@GROUP name=partition_point props=C06,C02 kind=U mode=contract enforce=etl_partition_point loops=1 standin=partition_point_b@*/
+void h_partition_point(void) { int *f, *l; struct vf_pred3 p; GH(); etl_partition_point(f, l, p); VF_REACH(); }
+/*@GROUP name=partition_point_b props=C06,C02 kind=B bound=len<=4 unwind=6@*/
+void h_partition_point_b(void) { IN1(a, n); for (unsigned long i = 1; i < n; ++i) VF_ASSUME(!(P3(a_in[i]) && !P3(a_in[i - 1])));   /* partitioned */
+  int *r = partition_point_p3(a, a + n);
+  unsigned long c = 0; for (unsigned long i = 0; i < n; ++i) if (P3(a_in[i])) ++c;
+  VF_ASSERT(r == a + c, "C06: partition_point returns the end of the first partition"); VF_REACH(); }
+
+/*@GROUP name=clamp props=C06,C02 kind=F mode=contract enforce=etl_clamp standin=clamp_b@*/
+void h_clamp(void) { int *v, *lo, *hi; etl_clamp(v, lo, hi); VF_REACH(); }
+/*@GROUP name=clamp_b props=C06,C02 kind=F@*/
+void h_clamp_b(void) { VF_INPUT(int, v); VF_INPUT(int, lo); VF_INPUT(int, hi); VF_ASSUME(!(hi < lo)); const int *r = clamp_int(&v, &lo, &hi);
+  VF_ASSERT(r == (v < lo ? &lo : hi < v ? &hi : &v), "C06: clamp returns lo if v < lo, hi if hi < v, otherwise v"); VF_REACH(); }
+
+/*@GROUP name=min props=C06,C02 kind=F mode=contract enforce=etl_min standin=minmax_b@*/
+void h_min(void) { int *a, *b; etl_min(a, b); VF_REACH(); }
+/*@GROUP name=max props=C06,C02 kind=F mode=contract enforce=etl_max standin=minmax_b@*/
+void h_max(void) { int *a, *b; etl_max(a, b); VF_REACH(); }
+/*@GROUP name=minmax props=C06,C02 kind=F mode=contract enforce=etl_minmax standin=minmax_b@*/
+void h_minmax(void) { int *a, *b; etl_minmax(a, b); VF_REACH(); }
+/*@GROUP name=minmax_b props=C06,C02 kind=F@*/
+void h_minmax_b(void) { VF_INPUT(int, a); VF_INPUT(int, b); const int *lo, *hi; minmax_int(&a, &b, &lo, &hi);
+  VF_ASSERT(min_int(&a, &b) == (b < a ? &b : &a), "C06: min returns the first argument when equivalent");
+  VF_ASSERT(max_int(&a, &b) == (a < b ? &b : &a), "C06: max returns the first argument when equivalent");
+  VF_ASSERT(lo == (b < a ? &b : &a) && hi == (b < a ? &a : &b), "C06: minmax returns pair(a, b) unless b < a"); VF_REACH(); }
